@@ -106,6 +106,34 @@ func rmOpenLazy(db dbm.DB, n int, pruning [2]int64, ver int64, lazy bool) (*rmSt
 	return s, nil
 }
 
+// rmOpenSetAfter: the pruning options are handed over only after the latest version was loaded (no
+// SetPruning call before the load), the order rootmulti.SetPruning's hand-over to loaded substores
+// exists for.
+func rmOpenSetAfter(db dbm.DB, n int, pruning [2]int64) (*rmStore, error) {
+	s := &rmStore{rs: rootmulti.NewStore(db)}
+	for i := 0; i < n; i++ {
+		k := stypes.NewKVStoreKey(rmName(i))
+		s.keys = append(s.keys, k)
+		s.rs.MountStoreWithDB(k, stypes.StoreTypeIAVL, nil)
+	}
+	s.tkey = stypes.NewTransientStoreKey("t")
+	s.rs.MountStoreWithDB(s.tkey, stypes.StoreTypeTransient, nil)
+	var err error
+	func() {
+		defer func() {
+			if r := recover(); r != nil {
+				err = fmt.Errorf("panic: %v", r)
+			}
+		}()
+		err = s.rs.LoadLatestVersion()
+	}()
+	if err != nil {
+		return nil, err
+	}
+	s.rs.SetPruning(stypes.NewPruningOptions(pruning[0], pruning[1]))
+	return s, nil
+}
+
 func (s *rmStore) kv(i int) stypes.KVStore { return s.rs.GetKVStore(s.keys[i]) }
 
 // content of substore i (working tree)
@@ -121,7 +149,7 @@ type rmHist struct {
 	Choice  [][]int
 	Pruning [2]int64
 	Names   int `json:",omitempty"` // store-name variant (see rmNameVariant)
-	Reopen  int `json:",omitempty"` // 1 = the store is reopened before every commit, 2 = reopened with lazy loading
+	Reopen  int `json:",omitempty"` // 1 = the store is reopened before every commit, 2 = reopened with lazy loading, 3 = older versions loaded on a copy before every commit, 4 = reopened, pruning options set after loading
 	// SkipSettings: the settings-change phase of C12 is not run for this history
 	SkipSettings bool `json:",omitempty"`
 }
@@ -132,8 +160,13 @@ func (h rmHist) String() string {
 	if h.Names == 1 {
 		b.WriteString(" stores=acc,accounts,a")
 	}
-	if h.Reopen > 0 {
+	switch h.Reopen {
+	case 1, 2:
 		fmt.Fprintf(&b, " reopened-before-every-commit(lazy=%v)", h.Reopen == 2)
+	case 3:
+		b.WriteString(" older-versions-loaded-on-a-copy-before-every-commit")
+	case 4:
+		b.WriteString(" reopened-before-every-commit(pruning options set after loading)")
 	}
 	for v, cs := range h.Choice {
 		fmt.Fprintf(&b, " v%d[", v+1)
